@@ -62,7 +62,7 @@ func (zzInner) ServeHTTP(w http.ResponseWriter, r *http.Request) (int, error) {
 		if verifrt.Bool("explicit-status") {
 			w.WriteHeader([]int{200, 204, 404, 500}[verifrt.Choose("status", 4)])
 		}
-		n := verifrt.IntRange("chunks", 0, 2)
+		n := verifrt.IntRange("chunks", 0, 2+verifrt.Tier())
 		for i := 0; i < n; i++ {
 			w.Write(verifrt.Bytes("chunk", verifrt.IntRange("chunklen", 0, 2)))
 		}
@@ -87,7 +87,7 @@ func zzIn(b byte, alphabet string) bool {
 // log whose {status} and {size} are what the client received; out of scope, none.
 func VerifH20bOneLine() {
 	httpserver.CaseSensitivePath = true
-	pn := verifrt.IntRange("plen", 0, 2)
+	pn := verifrt.IntRange("plen", 0, 2+2*verifrt.Tier())
 	p := "/" + verifrt.String("p", pn)
 	for i := 1; i < len(p); i++ {
 		verifrt.Assume(zzIn(p[i], "a/"))
